@@ -14,8 +14,12 @@ git -C /repo worktree add -q --detach "$wt" "$base" || exit 3
 trap 'git -C /repo worktree remove --force "$wt" >/dev/null 2>&1; rm -rf "$wt"' EXIT
 rundemo() {
   if [ -f "$sd/run_demo.sh" ]; then
-    (cd "$wt" && sed "s#/tmp/wt-C[0-9]*#$wt#g" "$sd/run_demo.sh" > "$wt/.run_demo.sh" && timeout 600 bash "$wt/.run_demo.sh") > "$wt/.demo.log" 2>&1
-    return $?
+    # the script locates the worktree as ../.. of its own directory
+    mkdir -p "$wt/SEEDED" && rm -rf "$wt/SEEDED/k" && cp -r "$sd" "$wt/SEEDED/k"
+    (cd "$wt" && flock /var/tmp/verif-repo-tests.lock timeout 900 bash "$wt/SEEDED/k/run_demo.sh") > "$wt/.demo.log" 2>&1
+    rc=$?
+    rm -rf "$wt/SEEDED"
+    return $rc
   fi
   cp "$sd"/*_test.go "$wt/lib/go/" 2>/dev/null
   names=$(grep -h -o "^func Test[A-Za-z0-9_]*" "$sd"/*_test.go | sed 's/func //' | paste -sd'|')
